@@ -266,6 +266,9 @@ def signed_distance(mesh, points):
     ontriangle = ((barycentric >= -tol.merge) & (barycentric <= 1 + tol.merge)).all(
         axis=1
     )
+    # a zero- area triangle has no normal to take the sign from: if
+    # it is the closest one the sign has to come from the ray test
+    ontriangle &= (normals[nonzero] != 0.0).any(axis=1)
 
     # Where projection does lie in the triangle, compare vector to projection to the
     # triangle normal to compute sign
